@@ -291,6 +291,7 @@ func c26(c *core.Ctx) {
 	c.Rule("C26.acks", "Client.pendingAcks is read and written only with subMux held (written only with the write lock), and only by handleAcks, handleNotification, sendPublishRequest, publish and the constructor; an acknowledgement is appended only on the data-notification path", 6)
 
 	c26Items(c)
+	c26Inputs(c)
 	// a successful PublishResponse answers the acknowledgements of its request, whichever subscription it is for
 	c.Rule("C26.settle", "in Client.publish every path from taking subMux for a successful PublishResponse to a return passes handleAcks (the results answer the request's acknowledgements even when the response is for a subscription the client has just forgotten): unsettled acknowledgements are sent again and a notification is acknowledged twice", 1)
 	if pub := fn(c, "opcua", "Client", "publish"); pub != nil {
